@@ -85,6 +85,7 @@ pub struct Stream {
     pub data: Vec<u8>,
     pub lz: LzOpts,
     pub lzma_fmt: LzmaFmt,
+    pub bounds: Vec<(usize, usize)>, // lzip-multi: (end offset, data length) of each member
 }
 
 pub fn decode_from<R: Read>(s: &Stream, src: R, cap: usize) -> Outcome<Vec<u8>> {
@@ -98,7 +99,7 @@ pub fn decode_from<R: Read>(s: &Stream, src: R, cap: usize) -> Outcome<Vec<u8>> 
             let mut r = XZReader::new(src, true);
             read_all_sched(&mut r, &[777], cap)
         }),
-        "lzip" => guard(|| {
+        "lzip" | "lzip-multi" => guard(|| {
             let mut r = LZIPReader::new(src)?;
             read_all_sched(&mut r, &[777], cap)
         }),
@@ -120,6 +121,27 @@ pub fn decode_from<R: Read>(s: &Stream, src: R, cap: usize) -> Outcome<Vec<u8>> 
 pub fn streams(rng: &mut Rng, n_each: usize, max_len: usize) -> Vec<Stream> {
     let mut v = vec![];
     for i in 0..n_each {
+        // several LZIP members: a cut exactly at a member boundary is a complete shorter file, every other cut
+        // (in particular inside the next member's magic bytes) must be an error
+        {
+            let mut bytes = vec![];
+            let mut data = vec![];
+            let mut bounds = vec![];
+            let mut lz0 = gen_lzopts(rng, false, 1 << 16, false);
+            lz0.preset = None;
+            for _ in 0..rng.range(2, 4) {
+                let l = rng.range(0, 60) as usize;
+                let d = gen_data(rng, "text", l);
+                if let Outcome::Ok(c) = lzip_compress(&d, &lz0, None, &[d.len()]) {
+                    bytes.extend(c);
+                    data.extend(d);
+                    bounds.push((bytes.len(), data.len()));
+                }
+            }
+            if bounds.len() >= 2 {
+                v.push(Stream { fmt: "lzip-multi", name: format!("lzip-members{}-{}", bounds.len(), bytes.len()), bytes, data, lz: lz0, lzma_fmt: LzmaFmt::RawMarker, bounds });
+            }
+        }
         for fmt in ["xz", "xz-multi", "lzip", "lzma2", "lzma"] {
             let kind = *rng.pick(&["text", "random", "periodic", "runs", "mixed"]);
             let len = if i == 0 { rng.range(1, 40) as usize } else { rng.range(1, max_len as u64) as usize };
@@ -136,7 +158,7 @@ pub fn streams(rng: &mut Rng, n_each: usize, max_len: usize) -> Vec<Stream> {
                             (Outcome::Ok(mut a), Outcome::Ok(b)) => {
                                 a.extend_from_slice(&[0, 0, 0, 0]);
                                 a.extend_from_slice(&b);
-                                v.push(Stream { fmt: "xz-multi", name: format!("xz2x-{kind}-{len}"), bytes: a, data: [data.clone(), data.clone()].concat(), lz: lz.clone(), lzma_fmt });
+                                v.push(Stream { fmt: "xz-multi", name: format!("xz2x-{kind}-{len}"), bytes: a, data: [data.clone(), data.clone()].concat(), lz: lz.clone(), lzma_fmt, bounds: vec![] });
                                 continue;
                             }
                             _ => continue,
@@ -170,7 +192,7 @@ pub fn streams(rng: &mut Rng, n_each: usize, max_len: usize) -> Vec<Stream> {
                     }
                 }
             };
-            v.push(Stream { fmt, name: format!("{fmt}-{}-{kind}-{len}", crate::c01::fmt_name(lzma_fmt)), bytes, data, lz, lzma_fmt });
+            v.push(Stream { fmt, name: format!("{fmt}-{}-{kind}-{len}", crate::c01::fmt_name(lzma_fmt)), bytes, data, lz, lzma_fmt, bounds: vec![] });
         }
     }
     v
@@ -195,15 +217,23 @@ pub fn run(rep: &mut Report, rng: &mut Rng, thorough: bool) {
         for &k in &points {
             let o = decode_from(s, &s.bytes[..k], cap);
             rep.evaluations += 1;
+            if s.bytes.len() <= 700 && matches!(s.fmt, "xz" | "xz-multi" | "lzip" | "lzip-multi") {
+                // the reader models on the same prefix: same verdict and error class
+                let f = if s.fmt.starts_with("xz") { "xz" } else { "lzip" };
+                let multi = s.fmt == "xz-multi";
+                let real = crate::cont::real_decode(f, multi, &s.bytes[..k], cap);
+                rep.model(crate::cont::model_req(f, multi, &s.bytes[..k], cap), crate::cont::canon(&real));
+            }
             match &o {
                 Outcome::Err(..) => rep.count("trunc.err"),
                 Outcome::Ok(d) => {
                     // a prefix that is itself a complete stream (two concatenated XZ streams cut at the boundary) is fine
-                    let complete_prefix = s.fmt == "xz-multi" && s.data.starts_with(d) && !d.is_empty() && d.len() * 2 == s.data.len();
+                    let complete_prefix = (s.fmt == "xz-multi" && s.data.starts_with(d) && !d.is_empty() && d.len() * 2 == s.data.len())
+                        || s.bounds.iter().any(|&(b, dl)| b == k && d[..] == s.data[..dl]);
                     if complete_prefix {
                         rep.count("trunc.complete-prefix");
                     } else {
-                        let id = if s.fmt == "lzip" && k == 0 { "truncation-accepted:lzip:empty-input".to_string() } else { format!("truncation-accepted:{}", s.fmt) };
+                        let id = if s.fmt.starts_with("lzip") && k == 0 { "truncation-accepted:lzip:empty-input".to_string() } else { format!("truncation-accepted:{}", s.fmt) };
                         rep.fail(&id, &format!("stream truncated to {k} of {} bytes decoded successfully to {} bytes", s.bytes.len(), d.len()), detail(&format!("truncate@{k}")));
                     }
                 }
